@@ -121,7 +121,7 @@ token * mmd_critic_tokenize_string(const char * source, size_t start, size_t len
 		}
 
 		if (last < start + len) {
-			token_append_child(root, token_new(CM_PLAIN_TEXT, last, start + len));
+			token_append_child(root, token_new(CM_PLAIN_TEXT, last, start + len - last));
 		}
 
 		match_free(m);
